@@ -207,6 +207,59 @@ def strategy_nets(rng):
     cl.cov = dict(band=0, C=np.diag(np.full(6, 25.0)))
     n.clusters.append(cl)
     yield finish(n, "vectors")
+    # vectors / levelled height differences that do not reach the unknown point (between given points only): the
+    # algorithms working on them must leave the point unresolved for the others (polar + zenith angle here)
+    n = base(3)
+    station(n, "F0", dirs=("F1", "P"), sdists=("P",), zangles=("P",)); station(n, "F2", dirs=("F3", "P"), sdists=("P",), zangles=("P",))
+    cl = netgen.Cluster("vectors")
+    for f, t in (("F0", "F1"), ("F2", "F3")):
+        a, b = n.points[f], n.points[t]
+        cl.vecs.append([f, t, b.E - a.E, b.N - a.N, b.H - a.H, None, None])
+    cl.cov = dict(band=0, C=np.diag(np.full(6, 25.0)))
+    n.clusters.insert(0, cl)
+    yield finish(n, "vectors-elsewhere")
+    # a vector between two points without coordinates: it cannot be used before one of them is computed by another
+    # algorithm (P: polar + zenith angle); Q hangs on P by the vector alone (+ one redundant slope distance)
+    n = base(3)
+    n.points["Q"] = netgen.Pt("Q", n.points["P"].E + float(rng.uniform(20, 80)), n.points["P"].N - float(rng.uniform(20, 80)),
+                              n.points["P"].H + float(rng.uniform(-5, 5)), "free", "free", give_xy=False, give_z=False)
+    station(n, "F0", dirs=("F1", "P"), sdists=("P",), zangles=("P",)); station(n, "F2", dirs=("F3", "P"), sdists=("P",), zangles=("P",))
+    station(n, "F1", sdists=("Q",))
+    cl = netgen.Cluster("vectors")
+    a, b = n.points["P"], n.points["Q"]
+    cl.vecs.append(["P", "Q", b.E - a.E, b.N - a.N, b.H - a.H, None, None])
+    a, b = n.points["F3"], n.points["F1"]
+    cl.vecs.append(["F3", "F1", b.E - a.E, b.N - a.N, b.H - a.H, None, None])
+    cl.cov = dict(band=0, C=np.diag(np.full(6, 25.0)))
+    n.clusters.insert(0, cl)
+    yield finish(n, "vector-between-unknown-points")
+    # the same one step longer: R is reached from Q (polar), Q from P (vector), P from the given points (polar)
+    n = base(3)
+    n.points["Q"] = netgen.Pt("Q", n.points["P"].E + float(rng.uniform(20, 80)), n.points["P"].N - float(rng.uniform(20, 80)),
+                              n.points["P"].H + float(rng.uniform(-5, 5)), "free", "free", give_xy=False, give_z=False)
+    n.points["R"] = netgen.Pt("R", n.points["Q"].E - float(rng.uniform(30, 90)), n.points["Q"].N - float(rng.uniform(30, 90)),
+                              n.points["Q"].H + float(rng.uniform(-5, 5)), "free", "free", give_xy=False, give_z=False)
+    station(n, "F0", dirs=("F1", "P"), sdists=("P",), zangles=("P",)); station(n, "F2", dirs=("F3", "P"), sdists=("P",), zangles=("P",))
+    station(n, "Q", dirs=("P", "R"), sdists=("R",), zangles=("R",))
+    cl = netgen.Cluster("vectors")
+    a, b = n.points["P"], n.points["Q"]
+    cl.vecs.append(["P", "Q", b.E - a.E, b.N - a.N, b.H - a.H, None, None])
+    cl.cov = dict(band=0, C=np.diag(np.full(3, 25.0)))
+    n.clusters.insert(0, cl)
+    yield finish(n, "polar-vector-polar-chain")
+    # a levelled height difference behind a trigonometric height: P from zenith angle + slope distance, Q in the
+    # horizontal from two distances and a direction, its height from dh P->Q only
+    n = base(3)
+    n.points["Q"] = netgen.Pt("Q", n.points["P"].E + float(rng.uniform(20, 80)), n.points["P"].N + float(rng.uniform(20, 80)),
+                              n.points["P"].H + float(rng.uniform(-5, 5)), "free", "free", give_xy=False, give_z=False)
+    station(n, "F0", dirs=("F1", "P", "Q"), sdists=("P",), zangles=("P",), dists=("Q",)); station(n, "F2", dirs=("F3", "P"), sdists=("P",), zangles=("P",), dists=("Q",))
+    cl = netgen.Cluster("hdiff"); cl.obs.append(netgen.Obs("dh", "P", "Q", stdev=2.0)); n.clusters.append(cl)
+    yield finish(n, "height-difference-behind-zenith")
+    n = base(3)
+    station(n, "F0", dirs=("F1", "P"), sdists=("P",), zangles=("P",)); station(n, "F2", dirs=("F3", "P"), sdists=("P",), zangles=("P",))
+    cl = netgen.Cluster("hdiff"); cl.obs.append(netgen.Obs("dh", "F0", "F1", stdev=2.0)); cl.obs.append(netgen.Obs("dh", "F2", "F3", stdev=2.0))
+    n.clusters.insert(0, cl)
+    yield finish(n, "height-differences-elsewhere")
 
 
 def gen_base(seed, i):
